@@ -99,6 +99,7 @@ pub struct Run {
     sets: Mutex<BTreeMap<String, HashSet<String>>>,
     violations: Mutex<Vec<(String, Value)>>, // (signature, record)
     violation_sigs: Mutex<HashSet<String>>,
+    sig_counts: Mutex<BTreeMap<String, usize>>,
     known_hit: Mutex<BTreeMap<String, (String, u64)>>, // id -> (text, count)
     inconclusive: Mutex<BTreeMap<String, u64>>,
     known: Vec<KnownFinding>,
@@ -161,6 +162,7 @@ impl Run {
             sets: Mutex::new(BTreeMap::new()),
             violations: Mutex::new(Vec::new()),
             violation_sigs: Mutex::new(HashSet::new()),
+            sig_counts: Mutex::new(BTreeMap::new()),
             known_hit: Mutex::new(BTreeMap::new()),
             inconclusive: Mutex::new(BTreeMap::new()),
             known: load_known_findings(),
@@ -280,15 +282,17 @@ impl Run {
         let case_txt = case.to_string();
         let key = format!("{signature}#{:016x}", fnv(case_txt.as_bytes()));
         {
+            // at most 3 witnesses per signature, each a distinct case
+            let mut counts = self.sig_counts.lock().unwrap();
+            let c = counts.entry(signature.to_string()).or_insert(0);
+            if *c >= 3 {
+                return;
+            }
             let mut sigs = self.violation_sigs.lock().unwrap();
             if !sigs.insert(key) {
                 return;
             }
-            // at most 3 witnesses per signature
-            let n_same = sigs.iter().filter(|k| k.starts_with(&format!("{signature}#"))).count();
-            if n_same > 3 {
-                return;
-            }
+            *c += 1;
         }
         let mut v = self.violations.lock().unwrap();
         if v.len() >= MAX_VIOLATION_FILES {
